@@ -23,6 +23,7 @@ BUDGET = {'quick': (150, 30.0), 'thorough': (4000, 240.0)}
 REQUIRED_REACH = {'*': ['accepted', 'rejected_capacity', 'decisions_with_shared_limited_trait', 'updates_decided', 'rejected_trait_limit']}
 
 TRAITS = ['ssd', 'gpu', 'big', 'x86']
+MANY_TRAITS = TRAITS + ['t%02d' % i for i in range(14)]       # a partition may limit many traits (more than ten, more than sixteen)
 UNIT = {'K': 1024, 'M': 1024 ** 2, 'G': 1024 ** 3, 'T': 1024 ** 4}
 DECIMAL = {'K': 1000, 'M': 1000 ** 2, 'G': 1000 ** 3, 'T': 1000 ** 4}
 
@@ -96,7 +97,9 @@ def run(ctx):
                        memory=rng.choice([1024, 4096, 16384]) * (k if roomy else 1),
                        disk=rng.choice([1024, 4096, 16384]) * (k if roomy else 1))
             limits = []
-            for t in rng.sample(TRAITS, rng.choice([0, 1, 2, 3, 4] if roomy else [0, 0, 1, 2, 3])):
+            many = roomy and rng.random() < 0.2
+            for t in (rng.sample(MANY_TRAITS, rng.randint(11, 18)) if many else
+                      rng.sample(TRAITS, rng.choice([0, 1, 2, 3, 4] if roomy else [0, 0, 1, 2, 3]))):
                 limits.append(dict(trait=t, cpu='%d%%' % rng.choice([0, 100, 200, 500, 800]),
                                    memory=spell_capacity(rng, rng.choice([0, 512, 2048, 8192])),
                                    disk=spell_capacity(rng, rng.choice([0, 512, 2048, 8192]))))
@@ -147,6 +150,8 @@ def run(ctx):
                 rsrc['partition'] = rng.choice(parts)
             if rng.random() < 0.7:
                 rsrc['traits'] = rng.sample(TRAITS, rng.choice([0, 1, 2, 2, 3, 4]))
+                if rng.random() < 0.3:
+                    rsrc['traits'] += rng.sample(MANY_TRAITS[4:], rng.randint(1, 3))
             if rng.random() < 0.3:
                 rsrc['rank'] = rng.randint(0, 100)
             # ---- independent decision
